@@ -634,7 +634,10 @@ def o_race_delete_all_metadata(p, cfg):
     if a != "ok" or b != "ok":
         return True, (f"two concurrent delete_metadata(pid): outcomes (A={a}, B={b}); sequentially "
                       "both succeed (deleting what does not exist is a silent no-op)")
-    return False, "both delete-alls succeeded"
+    if len(store.metadata_locked_docs_th):
+        return True, (f"after two concurrent delete_metadata(pid) a document stays in the locked list: "
+                      f"{list(store.metadata_locked_docs_th)} (every later call on it blocks)")
+    return False, "both delete-alls succeeded and nothing stays locked"
 
 
 ORACLES["race_delete_all_metadata"] = o_race_delete_all_metadata
@@ -1110,6 +1113,239 @@ def o_client_matrix(p, cfg):
     return False, f"{len(cases)} client invocations agree with the API"
 
 
+def o_observe_steps(p, cfg):
+    """C09: watch every open() the library performs during store / tag / metadata / delete calls:
+    a permanent file (object, metadata document, pid reference) must never be opened for writing,
+    and whenever one appears it must be complete."""
+    import builtins
+    store, props, root = new_store(cfg)
+    lay = layout.Layout(props)
+    sroot = os.path.abspath(props["store_path"])
+    bad = []
+    real_open = builtins.open
+
+    def permanent(path):
+        pth = os.path.abspath(str(path))
+        if not pth.startswith(sroot):
+            return False
+        rel = os.path.relpath(pth, sroot).split(os.sep)
+        if rel[-1].endswith("_delete") or "tmp" in rel[:2]:
+            return False
+        return rel[0] in ("objects", "metadata") or rel[:2] == ["refs", "pids"]
+
+    def f_open(file, mode="r", *a, **k):
+        if isinstance(file, (str, os.PathLike)) and any(c in mode for c in "wa+") and permanent(file):
+            bad.append(f"{os.path.relpath(str(file), sroot)} opened with mode {mode!r}")
+        return real_open(file, mode, *a, **k)
+    builtins.open = f_open
+    io.open = f_open
+    try:
+        big = os.urandom(300000)
+        store.store_object("p1", tmp_input(root, b"first", "a.bin"))
+        store.store_object("p2", tmp_input(root, b"first", "b.bin"))        # additional pid
+        store.store_object("p3", tmp_input(root, big, "c.bin"))
+        store.tag_object("p4", hashlib.sha256(b"first").hexdigest() if props["store_algorithm"] == "SHA-256"
+                         else store.store_object(None, tmp_input(root, b"first", "d.bin")).cid)
+        store.store_metadata("p1", tmp_input(root, b"<v1/>", "m1.xml"))
+        store.store_metadata("p1", tmp_input(root, b"<v2 longer document/>", "m2.xml"))   # overwrite
+        store.store_metadata("p1", tmp_input(root, b"<v3/>", "m3.xml"))                   # shorter
+        store.store_metadata("p1", tmp_input(root, b"<f/>", "m4.xml"), "fmt")
+        store.delete_metadata("p1", "fmt")
+        store.delete_object("p2")
+        store.delete_object("p1")
+    finally:
+        builtins.open = real_open
+        io.open = real_open
+    if bad:
+        return True, "a permanent file was opened for writing in place: " + "; ".join(bad[:3])
+    return False, "every permanent file appeared by rename only"
+
+
+def o_crash_recover(p, cfg):
+    """C10: kill the process before each file-system operation of store / tag / delete; afterwards
+    other pids are intact and delete_object + store_object on the interrupted pid succeed."""
+    import shutil as _sh
+    scen = p.get("calls", ["store-new", "store-shared", "tag", "delete-sole", "delete-shared"])
+    content, other = b"crash content", b"other content"
+    for sc in scen:
+        for k in range(1, 40):
+            store, props, root = new_store(cfg)
+            lay = layout.Layout(props)
+            alg = layout.HASHLIB[props["store_algorithm"]]
+            cid = hashlib.new(alg, content).hexdigest()
+            store.store_object("bystander", tmp_input(root, other, "o.bin"))
+            if sc in ("store-shared", "delete-shared"):
+                store.store_object("sharer", tmp_input(root, content, "s.bin"))
+            if sc.startswith("delete"):
+                store.store_object("victim", tmp_input(root, content, "v.bin"))
+            data = tmp_input(root, content, "d.bin")
+            before = lay.view()
+            pid = os.fork()
+            if pid == 0:
+                n = {"c": 0}
+
+                def bump():
+                    n["c"] += 1
+                    if n["c"] == k:
+                        os._exit(17)
+                rm, mv, mk = os.remove, _sh.move, os.makedirs
+                os.remove = lambda *a, **kw: (bump(), rm(*a, **kw))[1]
+                _sh.move = lambda *a, **kw: (bump(), mv(*a, **kw))[1]
+                os.makedirs = lambda *a, **kw: (bump(), mk(*a, **kw))[1]
+                try:
+                    if sc.startswith("store"):
+                        store.store_object("victim", data)
+                    elif sc == "tag":
+                        store.tag_object("victim", cid)
+                    else:
+                        store.delete_object("victim")
+                except BaseException:
+                    pass
+                os._exit(0)
+            _, status = os.waitpid(pid, 0)
+            died = os.WIFEXITED(status) and os.WEXITSTATUS(status) == 17
+            from hashstore.filehashstore import FileHashStore
+            store2 = FileHashStore(props)
+            after = lay.view()
+            for q in ("bystander", "sharer"):
+                if q in before["P"]:
+                    if q not in after["P"] or after["P"][q] != before["P"][q] or \
+                            before["P"][q] not in after["O"] or q not in after["C"].get(before["P"][q], []):
+                        return True, f"{sc}: crash before operation {k} damaged pid {q!r}"
+            r = outcome(lambda: store2.retrieve_object("victim").read())
+            if r[0] == "return" and r[1] != content:
+                return True, f"{sc}: crash before operation {k}: wrong bytes served for the interrupted pid"
+            d = outcome(store2.delete_object, "victim")
+            if d[0] != "return" and d[1] != "PidRefsDoesNotExist":
+                return True, (f"{sc}: after a crash before operation {k}, delete_object(pid) fails with "
+                              f"{d[1]}: {d[2][:120]}")
+            s3 = outcome(store2.store_object, "victim", data)
+            if s3[0] != "return":
+                return True, (f"{sc}: after a crash before operation {k} and delete_object, "
+                              f"store_object(pid) fails with {s3[1]}: {s3[2][:120]}")
+            shutil.rmtree(root, ignore_errors=True)
+            if not died:
+                break
+    return False, "recovery works after a crash at every operation of the five calls"
+
+
+def o_race_same_pid_store(p, cfg):
+    """C07 / C08: two store_object calls on one pid; the second is rejected as in progress; the
+    first completes and nothing stays locked."""
+    from hashstore.filehashstore import FileHashStore
+    store, props, root = new_store(cfg)
+    real = FileHashStore._store_and_validate_data
+    at_point, resume = threading.Event(), threading.Event()
+    state = {"armed": True}
+
+    def wrapped(self, *a, **k):
+        if state["armed"] and threading.current_thread().name == "A-thread":
+            state["armed"] = False
+            at_point.set()
+            resume.wait(10)
+        return real(self, *a, **k)
+    FileHashStore._store_and_validate_data = wrapped
+    res = {}
+
+    def ta():
+        res["A"] = outcome(store.store_object, "same", tmp_input(root, b"aaa", "a.bin"))
+    t = threading.Thread(target=ta, name="A-thread", daemon=True)
+    t.start()
+    reached = at_point.wait(10)
+    if reached:
+        res["B"] = outcome(store.store_object, "same", tmp_input(root, b"aaa", "b.bin"))
+    resume.set()
+    t.join(10)
+    FileHashStore._store_and_validate_data = real
+    if not reached:
+        return None, "pause point not reached"
+    a = "ok" if res["A"][0] == "return" else res["A"][1]
+    b = "ok" if res["B"][0] == "return" else res["B"][1]
+    if a != "ok" or b not in ("StoreObjectForPidAlreadyInProgress", "HashStoreRefsAlreadyExists"):
+        return True, f"two store_object calls on one pid: outcomes (first={a}, second={b})"
+    left = [l for l in (store.object_locked_pids_th, store.object_locked_cids_th,
+                        store.reference_locked_pids_th) if len(l)]
+    if left:
+        return True, f"identifiers left locked after the calls: {left}"
+    return False, "first stored, second rejected, nothing left locked"
+
+
+def o_race_store_meta_delete_all(p, cfg):
+    """C12: store_metadata(pid, f) paused just before it publishes its document while
+    delete_metadata(pid) / delete_object(pid) runs: no storing call may fail with an error a
+    sequential run cannot produce."""
+    import shutil as _sh
+    for pre in (False, True):
+        store, props, root = new_store(cfg)
+        if pre:
+            store.store_metadata("p", tmp_input(root, b"<other/>", "o.xml"), "fmt-other")
+        real_move = _sh.move
+        at_point, resume = threading.Event(), threading.Event()
+        state = {"armed": True}
+
+        def f_move(src, dst, *a, **k):
+            if state["armed"] and threading.current_thread().name == "A-thread" and \
+                    os.sep + "metadata" + os.sep in str(dst) and "tmp" not in str(dst).split(os.sep)[-2]:
+                state["armed"] = False
+                at_point.set()
+                resume.wait(10)
+            return real_move(src, dst, *a, **k)
+        _sh.move = f_move
+        res = {}
+
+        def ta():
+            res["A"] = outcome(store.store_metadata, "p", tmp_input(root, b"<new/>", "n.xml"), "fmt-a")
+        t = threading.Thread(target=ta, name="A-thread", daemon=True)
+        t.start()
+        reached = at_point.wait(10)
+        if reached:
+            res["B"] = outcome(store.delete_metadata, "p")
+        resume.set()
+        t.join(10)
+        _sh.move = real_move
+        if not reached:
+            return None, "pause point not reached"
+        a = "ok" if res["A"][0] == "return" else res["A"][1]
+        b = "ok" if res["B"][0] == "return" else res["B"][1]
+        if a != "ok" or b != "ok":
+            return True, (f"store_metadata paused before publishing its document, delete_metadata(pid) "
+                          f"ran: outcomes (store={a}, delete-all={b}); sequentially both succeed")
+        shutil.rmtree(root, ignore_errors=True)
+    return False, "store and delete-all both succeeded under the preemption"
+
+
+def o_digest_history(p, cfg):
+    """C02: get_hex_digest is true for every supported algorithm and spelling, whatever was
+    stored under the pid before."""
+    store, props, root = new_store(cfg)
+    spell = {}
+    for n in ["md5", "sha1", "sha256", "sha384", "sha512", "sha224", "sha3_224", "sha3_256",
+              "sha3_384", "sha3_512", "blake2b", "blake2s"]:
+        spell[n] = {n, n.upper(), n.replace("_", "-"), n.upper().replace("_", "-")}
+    for d, n in (("MD5", "md5"), ("SHA-1", "sha1"), ("SHA-256", "sha256"), ("SHA-384", "sha384"),
+                 ("SHA-512", "sha512")):
+        spell[n] |= {d, d.lower(), d.replace("-", "_")}
+    for rnd, content in enumerate((b"first content", b"second content")):
+        store.store_object("pid-h", tmp_input(root, content, f"h{rnd}.bin"))
+        for n, sps in spell.items():
+            want = hashlib.new(n, content).hexdigest()
+            for sp in sorted(sps):
+                out = outcome(store.get_hex_digest, "pid-h", sp)
+                if out[0] != "return":
+                    return True, f"get_hex_digest(pid, {sp!r}) raised {out[1]}"
+                if out[1] != want:
+                    return True, (f"get_hex_digest(pid, {sp!r}) returns a digest that is not the digest "
+                                  f"of the stored content (round {rnd + 1}: after delete_object and a new "
+                                  "store_object the digest of the earlier content is returned)" )
+        store.delete_object("pid-h")
+    return False, "digests true for every algorithm and spelling across a delete / re-store"
+
+
+ORACLES["race_store_meta_delete_all"] = o_race_store_meta_delete_all
+ORACLES["digest_history"] = o_digest_history
+ORACLES["observe_steps"] = o_observe_steps
+ORACLES["crash_recover"] = o_crash_recover
+ORACLES["race_same_pid_store"] = o_race_same_pid_store
 ORACLES["client_matrix"] = o_client_matrix
 ORACLES["verdict_matrix"] = o_verdict_matrix
 ORACLES["reject_matrix"] = o_reject_matrix
